@@ -1039,6 +1039,13 @@ impl<T: Transport, Env: UtpEnvironment> VirtualSocket<T, Env> {
         }
 
         if result.on_ack_result.acked_segments_count > 0 {
+            // An RTO rewinds last_sent_seq_nr. If the ACK covers more than the retransmitted
+            // segment, catch up with it, otherwise the FIN would wait for it forever.
+            let last_acked = self.user_tx_segments.snd_una() - 1;
+            if self.last_sent_seq_nr < last_acked {
+                self.last_sent_seq_nr = last_acked;
+            }
+
             // Cleanup user side of TX queue, remove the ACKed bytes from the front of it,
             // and notify the writer.
             {
